@@ -1,5 +1,6 @@
 import Pamqp.Spec.Defs
 import Pamqp.Props.TieA
+import Pamqp.Proofs.Time
 /-!
 # C15 — timestamp handling does not depend on the host time zone or DST
 The model of `encode.timestamp` / `decode.timestamp` has no time-zone input at all; that this is a
@@ -13,17 +14,17 @@ open Pamqp
 /-- a naive datetime is encoded as if it were UTC -/
 theorem C15_naive_as_utc (m : Int) :
     Encode.timestamp (.datetime m none) = Encode.timestamp (.datetime m (some 0)) := by
-  sorry
+  exact Proofs.Time.naive_as_utc m
 
 /-- an aware datetime is encoded as its absolute instant: equal instants, equal bytes -/
 theorem C15_aware_instant (m₁ m₂ off₁ off₂ : Int) (h : m₁ - off₁ * 1000000 = m₂ - off₂ * 1000000) :
     Encode.timestamp (.datetime m₁ (some off₁)) = Encode.timestamp (.datetime m₂ (some off₂)) := by
-  sorry
+  exact Proofs.Time.aware_instant m₁ m₂ off₁ off₂ h
 
 /-- whole seconds of the instant, big-endian unsigned 64 bit -/
 theorem C15_encoding (m : Int) (tz : Option Int) (h0 : 0 ≤ Spec.instantMicros m tz) :
     Encode.timestamp (.datetime m tz) = packU64 (Spec.instantMicros m tz / 1000000) := by
-  sorry
+  exact Proofs.Time.encoding m tz h0
 
 /-- a struct_time is read as UTC (`calendar.timegm`) -/
 theorem C15_struct_time (s : Int) : Encode.timestamp (.structTime s) = packU64 s := rfl
@@ -31,7 +32,7 @@ theorem C15_struct_time (s : Int) : Encode.timestamp (.structTime s) = packU64 s
 /-- every decoded timestamp is UTC-aware -/
 theorem C15_decode_utc (bs : Bytes) (n : Nat) (v : PyVal) (h : Decode.timestamp bs = .ok (n, v)) :
     ∃ m, v = .datetime m (some 0) := by
-  sorry
+  exact Proofs.Time.decode_utc bs n v h
 
 /-- and denotes the encoded instant (1970..2106) -/
 theorem C15_roundtrip_instant (m : Int) (tz : Option Int) (h0 : 0 ≤ Spec.instantMicros m tz)
@@ -39,6 +40,6 @@ theorem C15_roundtrip_instant (m : Int) (tz : Option Int) (h0 : 0 ≤ Spec.insta
     ∃ bs, Encode.timestamp (.datetime m tz) = .ok bs ∧
       Decode.timestamp (bs ++ rest) =
         .ok (8, .datetime (Spec.instantMicros m tz / 1000000 * 1000000) (some 0)) := by
-  sorry
+  exact Proofs.Time.roundtrip_instant m tz h0 h1 rest
 
 end Pamqp.Props
